@@ -1,0 +1,80 @@
+//go:build verif
+
+// Contracts for package credential, checked by /verif/govc (comment-only; not part of any normal build).
+
+package credential
+
+// ---- C01 / C19: credential validators (reached from the network with attacker-chosen credentials) ----
+
+//@ func validateNutsCredentialID
+//@   prop C01 C19
+//@   safety
+//@   ensures [id-starts-with-issuer] isNilIface(result) ==> credential.ID != nil
+
+//@ func (defaultCredentialValidator).Validate
+//@   prop C01 C19
+//@   safety
+//@   ensures [type-required] isNilIface(result) ==> credential.IsType(vc.VerifiableCredentialTypeV1URI())
+//@   ensures [context-required] isNilIface(result) ==> credential.ContainsContext(vc.VCContextV1URI())
+//@   ensures [issuer-required] isNilIface(result) ==> credential.Issuer.String() != ""
+//@   ensures [id-required] isNilIface(result) ==> credential.ID != nil
+//@   ensures [issuance-date-required] isNilIface(result) ==> !credential.IssuanceDate.IsZero()
+//@   ensures [status-syntax-checked] isNilIface(result) ==> did(call validateCredentialStatus #1) && arg(call validateCredentialStatus #1, 0) == credential && isNilIface(ret(call validateCredentialStatus #1))
+
+//@ func (nutsOrganizationCredentialValidator).Validate
+//@   prop C01 C19
+//@   safety
+//@   ensures [id-and-default-rules] isNilIface(result) ==> isNilIface(ret(call validateNutsCredentialID #1)) && arg(call validateNutsCredentialID #1, 0) == credential
+//@        && did(call (defaultCredentialValidator).Validate #1) && isNilIface(ret(call (defaultCredentialValidator).Validate #1))
+//@        && arg(call (defaultCredentialValidator).Validate #1, 1) == credential
+
+//@ func (nutsAuthorizationCredentialValidator).Validate
+//@   prop C01 C19
+//@   safety
+//@   ensures [id-and-default-rules] isNilIface(result) ==> isNilIface(ret(call validateNutsCredentialID #1)) && arg(call validateNutsCredentialID #1, 0) == credential
+//@        && did(call (defaultCredentialValidator).Validate #1) && isNilIface(ret(call (defaultCredentialValidator).Validate #1))
+//@        && arg(call (defaultCredentialValidator).Validate #1, 1) == credential
+
+// ---- C11 ----
+//@ func ValidateRevocation
+//@   prop C11 C19
+//@   safety
+//@   modifies nothing
+//@   ensures [proof-required] isNilIface(result) ==> r.Proof != nil
+//@   ensures [issuer-date-subject-required] isNilIface(result) ==> r.Issuer.String() != "" && !r.Date.IsZero() && r.Subject.String() != "" && r.Subject.Fragment != ""
+
+// ---- C01: presenter == subject ----
+//@ func PresenterIsCredentialSubject
+//@   prop C01 C19
+//@   safety
+//@   ensures [signer-resolved] isNilIface(result.1) ==> isNilIface(ret(call PresentationSigner #1).1) && arg(call PresentationSigner #1, 0) == vp
+//@   ensures [subject-resolved] isNilIface(result.1) ==> isNilIface(ret(call ResolveSubjectDID #1).1) && arg(call ResolveSubjectDID #1, 0) == vp.VerifiableCredential
+//@   ensures [returned-did-is-signer-and-subject] isNilIface(result.1) && result.0 != nil ==> result.0 == ret(call PresentationSigner #1).0
+//@        && ret(call (did.DID).Equals #1) == true
+
+//@ func ResolveSubjectDID
+//@   prop C01 C19
+//@   safety
+//@   ensures [did-iff-ok] isNilIface(result.1) <==> result.0 != nil
+
+//@ func PresentationSigner
+//@   prop C01 C17 C19
+//@   safety
+//@   ensures [did-iff-ok] isNilIface(result.1) <==> result.0 != nil
+
+//@ func ParseLDProof
+//@   prop C01 C19
+//@   safety
+//@   ensures [proof-iff-ok] isNilIface(result.1) <==> result.0 != nil
+//@   ensures [exactly-one-proof] isNilIface(result.1) ==> len(proofs) == 1
+
+//@ func FindValidator
+//@   prop C01 C19
+//@   modifies nothing
+//@   ensures [never-nil] !isNilIface(result)
+
+//@ func ExtractTypes
+//@   prop C01 C19
+//@   safety
+//@   modifies nothing
+//@   loop 1 invariant (len(vcTypes) == 0 && cap(vcTypes) == 0) || isFresh(vcTypes)
